@@ -30,61 +30,63 @@ type Item struct {
 }
 
 type loopInfo struct {
-	header   *ssa.BasicBlock
-	blocks   map[*ssa.BasicBlock]bool
-	ord      int
-	spec     *LoopSpec
-	minPos   token.Pos
-	preState *State
-	headSt   *State
-	variant  *Term
-	bodyPos  token.Pos
-	rangeIt  ssa.Value
-	rangeIdx *ssa.Alloc
+	header    *ssa.BasicBlock
+	blocks    map[*ssa.BasicBlock]bool
+	ord       int
+	spec      *LoopSpec
+	minPos    token.Pos
+	preState  *State
+	headSt    *State
+	variant   *Term
+	bodyPos   token.Pos
+	rangeIt   ssa.Value
+	rangeIdx  *ssa.Alloc
+	backEdges int
 }
 
 type FnCtx struct {
-	P        *Prog
-	fn       *ssa.Function
-	fc       *FuncContract
-	key      string
-	declared map[string]string
-	declList []string
-	items    []Item
-	vals     map[ssa.Value]Term
-	tuples   map[ssa.Value][]Term
-	reach    map[*ssa.BasicBlock]Term
-	outSt    map[*ssa.BasicBlock]*State
-	edgeCond map[[2]int]Term
-	loops    []*loopInfo
-	loopOf   map[*ssa.BasicBlock]*loopInfo // header -> loop
-	entry    *State
-	cur      *State
-	curBlock *ssa.BasicBlock
-	compSort map[string]string
-	written  map[string]bool
-	counter  map[string]int
-	fresh    int
-	defers   []*ssa.Defer
-	closures map[ssa.Value]*ssa.MakeClosure
+	sentinels  []Term
+	P          *Prog
+	fn         *ssa.Function
+	fc         *FuncContract
+	key        string
+	declared   map[string]string
+	declList   []string
+	items      []Item
+	vals       map[ssa.Value]Term
+	tuples     map[ssa.Value][]Term
+	reach      map[*ssa.BasicBlock]Term
+	outSt      map[*ssa.BasicBlock]*State
+	edgeCond   map[[2]int]Term
+	loops      []*loopInfo
+	loopOf     map[*ssa.BasicBlock]*loopInfo // header -> loop
+	entry      *State
+	cur        *State
+	curBlock   *ssa.BasicBlock
+	compSort   map[string]string
+	written    map[string]bool
+	counter    map[string]int
+	fresh      int
+	defers     []*ssa.Defer
+	closures   map[ssa.Value]*ssa.MakeClosure
 	allocByPos map[token.Pos]*ssa.Alloc
-	errs     []string
-	notes    map[string]bool // evidence notes (uncontracted callees etc.)
-	mode     string
-	anc      map[int]map[int]bool
-	order    []*ssa.BasicBlock
-	paramTerm map[string]Val
-	callCount map[string]int
-	scopePos  token.Pos
-	pkgInfo   *types.Info
-	modSet    map[string]bool
-	callees   map[string]bool
+	errs       []string
+	notes      map[string]bool // evidence notes (uncontracted callees etc.)
+	mode       string
+	anc        map[int]map[int]bool
+	order      []*ssa.BasicBlock
+	paramTerm  map[string]Val
+	callCount  map[string]int
+	scopePos   token.Pos
+	pkgInfo    *types.Info
+	modSet     map[string]bool
+	callees    map[string]bool
 	freshWrite bool
-	cellOnly  map[string][]*ssa.FreeVar
-	ghosts    map[string]Val
-	havocNext map[string]Term // allocation frontier at the point a havoc constant was introduced
-	retStates []retState
-	usedFC    map[*FuncContract]bool
+	cellOnly   map[string][]*ssa.FreeVar
+	ghosts     map[string]Val
+	havocNext  map[string]Term // allocation frontier at the point a havoc constant was introduced
+	retStates  []retState
+	usedFC     map[*FuncContract]bool
 }
 
 type retState struct {
@@ -1185,8 +1187,14 @@ func (fx *FnCtx) enterLoop(li *loopInfo, st *State, preds []*ssa.BasicBlock) *St
 func (fx *FnCtx) checkBackEdge(li *loopInfo, from *ssa.BasicBlock, succIdx int) {
 	st := fx.outSt[from]
 	cond := fx.edgeCond[[2]int{from.Index, li.header.Index}]
+	// a loop with several back edges (continue statements) has one set of obligations per edge
+	sfx := ""
+	if li.backEdges > 0 {
+		sfx = fmt.Sprintf("~e%d", li.backEdges)
+	}
+	li.backEdges++
 	if li.spec == nil {
-		fx.obligNamed(fmt.Sprintf("%s#inv.missing@loop%d", fx.key, li.ord), tFalse, "loop has no invariant in the contract", nil, "")
+		fx.obligNamed(fmt.Sprintf("%s#inv.missing@loop%d%s", fx.key, li.ord, sfx), tFalse, "loop has no invariant in the contract", nil, "")
 		return
 	}
 	for j, c := range li.spec.Invariants {
@@ -1196,14 +1204,14 @@ func (fx *FnCtx) checkBackEdge(li *loopInfo, from *ssa.BasicBlock, succIdx int) 
 			fx.errf("binding failure: %s loop %d invariant %d at back edge: %v", fx.key, li.ord, j, err)
 			continue
 		}
-		fx.obligNamed(fmt.Sprintf("%s#inv.keep@loop%d.%d", fx.key, li.ord, j), implies(cond, t), c.Text, c.Props, c.Known)
+		fx.obligNamed(fmt.Sprintf("%s#inv.keep@loop%d.%d%s", fx.key, li.ord, j, sfx), implies(cond, t), c.Text, c.Props, c.Known)
 	}
 	if li.spec.Decreases != nil && li.variant != nil {
 		env := fx.loopEnv(li, st)
 		v, err := env.elab(li.spec.Decreases.E)
 		if err == nil {
 			t := and(app("Bool", "<=", Term{"0", "Int"}, *li.variant), app("Bool", "<", v.T, *li.variant))
-			fx.obligNamed(fmt.Sprintf("%s#dec@loop%d", fx.key, li.ord), implies(cond, t), "decreases "+li.spec.Decreases.Text, li.spec.Decreases.Props, li.spec.Decreases.Known)
+			fx.obligNamed(fmt.Sprintf("%s#dec@loop%d%s", fx.key, li.ord, sfx), implies(cond, t), "decreases "+li.spec.Decreases.Text, li.spec.Decreases.Props, li.spec.Decreases.Known)
 		}
 	}
 }
@@ -1236,6 +1244,31 @@ func (fx *FnCtx) lookupName(env *Env, name string) (Val, bool, error) {
 	// fallback by name among params
 	if v, ok := fx.paramTerm[name]; ok {
 		return v, true, nil
+	}
+	if env.laxLocals {
+		// visible at function level?
+		if fx.pkgInfo != nil && fx.scopePos.IsValid() && env.pos != fx.scopePos {
+			e2 := *env
+			e2.pos = fx.scopePos
+			e2.laxLocals = false
+			if v, ok, err := fx.lookupName(&e2, name); ok || err != nil {
+				return v, ok, err
+			}
+		}
+		// a local of the function that is out of scope here: arbitrary value of its type
+		var hit *ssa.Alloc
+		n := 0
+		for _, a := range fx.allocByPos {
+			if a.Comment == name {
+				hit = a
+				n++
+			}
+		}
+		if n == 1 {
+			t := deref(hit.Type())
+			c := fx.freshConst("outofscope_"+name, fx.P.sorts.sortOf(t))
+			return Val{T: c, GoT: t}, true, nil
+		}
 	}
 	return Val{}, false, nil
 }
